@@ -31,9 +31,9 @@ Clauses == <<
   <<"NoResponsePerNotification", ~Req => ObsShape = "none">>,
   <<"CodeTable", Req /\ ObsShape = "response" =>
       /\ (~Registered(M.m) => O.iserr /\ O.code = -32601)
-      /\ (M.m \in {"customRaises", "notifications/roots/list_changed"} => O.iserr /\ O.code = -32603)
-      /\ (M.m = "toolsCallRaises" /\ M.p = "ok" => O.iserr /\ O.code = -32603)
-      /\ (M.m = "resReadRaises" /\ M.p = "ok" => O.iserr /\ O.code = -32603)
+      /\ (M.m \in {"customRaises", "customKeyError", "notifications/roots/list_changed"} => O.iserr /\ O.code = -32603)
+      /\ (M.m \in {"toolsCallRaises", "toolsCallKeyError"} /\ M.p = "ok" => O.iserr /\ O.code = -32603)
+      /\ (M.m \in {"resReadRaises", "resReadKeyError"} /\ M.p = "ok" => O.iserr /\ O.code = -32603)
       /\ (M.m = "toolsCallUnknown" /\ NameKnown(M.m, M.p) => O.iserr /\ O.code = -32602)
       /\ (M.m = "resReadUnknown" /\ M.p \in {"ok", "argsNull", "argsList"} => O.iserr /\ O.code = -32602)
       /\ (M.m \in {"ping", "toolsList", "resourcesList", "customOk"} => ~O.iserr)>>,
